@@ -99,6 +99,19 @@ fn generate(seed: u64, tier: Tier, em: &mut Emitter) {
     for (src, steps, parts, pat) in emptied_barrier_cases(full) {
         emit_pair(em, &src, &steps, parts, &["sweep", "emptied_partition", "emptied_before_barrier", pat]);
     }
+    // TopK over shuffled / descending / zig-zag data (the slow merge path), debug taps on big partitions
+    for (src, steps, parts) in topk_cases(&mut rng, full) {
+        emit_pair(em, &src, &steps, parts, &["sweep", "topk_non_monotone"]);
+    }
+    for n in [25usize, 40] {
+        for k in [0usize, 2, 14, 60] {
+            for parts in [1usize, 2, 3] {
+                let u = Src::Vec(Shape::U, ints(n, &mut rng));
+                emit_pair(em, &u, &[Step::Debug(k), Step::CustomMap(EFun::Add(1)), Step::Debug(1)], parts,
+                          &["sweep", "debug_tap"]);
+            }
+        }
+    }
     // more than 64 effective partitions
     for (src, steps, parts) in many_partition_cases(full) {
         emit_pair(em, &src, &steps, parts, &["sweep", "many_partitions"]);
@@ -127,13 +140,14 @@ fn generate(seed: u64, tier: Tier, em: &mut Emitter) {
         made += 1;
     }
     let mut rng = seed_mix(seed, 0xC01_0002);
-    let count = if tier == Tier::Quick { 700 } else { 9000 };
+    let count = if tier == Tier::Quick { 600 } else { 9000 };
     for _ in 0..count {
         let n = gen_len(&mut rng);
         let src = gen_src(&mut rng, n, true, true);
         let parts = gen_parts(&mut rng, src.len());
         let mut o = GenOpts::all();
         o.side_inputs = true;
+        o.taps = true;
         o.odd_batches = rng.chance(1, 8);
         o.empty_minmax = rng.chance(1, 4);
         o.reorder_class = rng.chance(1, 6);
